@@ -985,7 +985,7 @@ func (x *Exec) typeAssert(fr *frame, i *ssa.TypeAssert) Value {
 
 // ---- goroutines (delegated to sched.go) ------------------------------------
 
-func (x *Exec) chanSend(fr *frame, i *ssa.Send) { x.unsupported("channel send in front end G builtin model") }
+func (x *Exec) chanSend(fr *frame, i *ssa.Send) { x.chanSendVal(x.get(fr, i.Chan), x.get(fr, i.X)) }
 
 // ---- API for the translation-validation driver --------------------------------
 
